@@ -1550,6 +1550,8 @@ def reachable_vs(body, start, removed_blocks=(), removed_edges=(), env0=None):
                 env.pop(d, None)
             else:
                 env[d] = v
+            if t.cmethod in ('unwrap', 'expect') and av in ('Err', 'None'):
+                succs = []      # panics: the path ends here
         if t.kind == 'switch' and t.discr.place is not None and not t.discr.place[1]:
             v = env.get(t.discr.place[0])
             if isinstance(v, tuple) and v[0] == 'd':
